@@ -34,14 +34,21 @@ type C16Op struct {
 }
 
 type C16Plan struct {
-	Driver  string     `json:"driver"` // at | xa
-	Global  bool       `json:"global"` // program runs inside a global transaction (committed at the end)
-	Cfg     ATCfg      `json:"cfg"`
-	Opts    GenOpts    `json:"opts"`
-	Tables  []TableDef `json:"tables"`
-	Ops     []C16Op    `json:"ops"`
-	Tape    []int      `json:"tape"`
-	Version string     `json:"version,omitempty"`
+	Driver string     `json:"driver"` // at | xa
+	Global bool       `json:"global"` // program runs inside a global transaction (committed at the end)
+	Cfg    ATCfg      `json:"cfg"`
+	Opts   GenOpts    `json:"opts"`
+	Tables []TableDef `json:"tables"`
+	Ops    []C16Op    `json:"ops"`
+	// Prelude (AT driver, program outside a global transaction): operations
+	// run first INSIDE a global transaction (committed) over the same handle -
+	// an explicit transaction, a statement that is only prepared ("pkeep") and
+	// executed later by the program ("preuse"). Dedicated: the handle is one
+	// *sql.Conn for prelude and program instead of the pool.
+	Prelude   []C16Op `json:"prelude,omitempty"`
+	Dedicated bool    `json:"dedicated,omitempty"`
+	Tape      []int   `json:"tape"`
+	Version   string  `json:"version,omitempty"`
 }
 
 type c16Res struct {
@@ -178,7 +185,43 @@ func genC16Plan(seed uint64, tier string) *C16Plan {
 	if inTx {
 		p.Ops = append(p.Ops, C16Op{Op: simkit.Pick(g, []string{"commit", "rollback"})})
 	}
+	if p.Driver == "at" && !p.Global && g.Prob(0.3) {
+		p.Dedicated = g.Bool()
+		if g.Bool() || !p.Dedicated {
+			// a statement prepared while the global transaction is open, executed
+			// by the program after it
+			st := sg.gen()
+			for k := 0; k < 4 && len(st.Args) == 0; k++ {
+				st = sg.gen()
+			}
+			p.Prelude = append(p.Prelude, C16Op{Op: "pkeep", SQL: st.SQL, Kind: st.Kind})
+			at := g.Intn(len(p.Ops) + 1)
+			for at < len(p.Ops) && at > 0 && insideTx(p.Ops[:at]) {
+				at++
+			}
+			reuse := C16Op{Op: "preuse", SQL: st.SQL, Args: st.Args, Kind: st.Kind}
+			p.Ops = append(p.Ops[:at], append([]C16Op{reuse}, p.Ops[at:]...)...)
+		}
+		if g.Bool() {
+			st := sg.gen()
+			p.Prelude = append(p.Prelude, C16Op{Op: "begin"}, C16Op{Op: "exec", SQL: st.SQL, Args: st.Args, Kind: st.Kind}, C16Op{Op: "commit"})
+		}
+	}
 	return p
+}
+
+// insideTx: the operations end inside an explicit transaction.
+func insideTx(ops []C16Op) bool {
+	in := false
+	for _, o := range ops {
+		switch o.Op {
+		case "begin":
+			in = true
+		case "commit", "rollback":
+			in = false
+		}
+	}
+	return in
 }
 
 type c16Execer interface {
@@ -227,7 +270,26 @@ func c16Rows(rows *sql.Rows) c16Res {
 }
 
 // c16Run executes the program and returns one result per operation.
-func c16Run(ctx context.Context, db *sql.DB, ops []C16Op) (out []c16Res) {
+// c16Handle is what a program runs on: the pool (*sql.DB) or one connection
+// of it (*sql.Conn).
+type c16Handle interface {
+	c16Execer
+	BeginTx(ctx context.Context, opts *sql.TxOptions) (*sql.Tx, error)
+}
+
+// c16Runner keeps what survives from the prelude to the program: the handle
+// and the statement that was only prepared.
+type c16Runner struct {
+	db   c16Handle
+	kept *sql.Stmt
+}
+
+func c16Run(ctx context.Context, db c16Handle, ops []C16Op) []c16Res {
+	return (&c16Runner{db: db}).run(ctx, ops)
+}
+
+func (rn *c16Runner) run(ctx context.Context, ops []C16Op) (out []c16Res) {
+	db := rn.db
 	var tx *sql.Tx
 	cur := func() c16Execer {
 		if tx != nil {
@@ -323,6 +385,32 @@ func c16Run(ctx context.Context, db *sql.DB, ops []C16Op) (out []c16Res) {
 					}
 					out = append(out, c16Rows(rows))
 				}
+			case "pkeep":
+				st, err := cur().PrepareContext(ctx, op.SQL)
+				if err != nil {
+					out = append(out, c16Res{Err: "prepare: " + err.Error()})
+					return
+				}
+				rn.kept = st
+				out = append(out, c16Res{})
+			case "preuse":
+				if rn.kept == nil {
+					out = append(out, c16Res{Err: "no kept statement"})
+					return
+				}
+				st := rn.kept
+				if tx != nil {
+					st = tx.StmtContext(ctx, st)
+				}
+				res, err := st.ExecContext(ctx, args...)
+				if err != nil {
+					out = append(out, c16Res{Err: err.Error()})
+					return
+				}
+				var r c16Res
+				r.Affected, _ = res.RowsAffected()
+				r.LastID, _ = res.LastInsertId()
+				out = append(out, r)
 			default:
 				out = append(out, c16Res{Err: "unknown op " + op.Op})
 			}
@@ -481,21 +569,62 @@ func runC16(t *testing.T, seed uint64, planJSON []byte, tier string) (res *Resul
 		}
 		// identical pool state: one warmed connection on each side
 		dbB.Ping()
+		settleP2 := func() {
+			t1 := sim.Now()
+			sim.Run(func() bool {
+				return sim.Now()-t1 > 600*time.Second || (sim.Enabled() == 0 && w.TC.PendingP2() == 0 && sim.Now()-t1 > 5*time.Second)
+			})
+		}
+		rnA, rnB := &c16Runner{db: dbA}, &c16Runner{db: dbB}
+		var preA, preB []c16Res
+		var perr error
+		if len(plan.Prelude) > 0 || plan.Dedicated {
+			// the same handle serves the prelude (inside a global transaction on
+			// the proxied side) and then the program
+			if plan.Dedicated {
+				cb, err := dbB.Conn(context.Background())
+				if err != nil {
+					res.Harness = err.Error()
+					return
+				}
+				rnB.db = cb
+			}
+			preB = rnB.run(context.Background(), plan.Prelude)
+			okp := runOnActor(sim, "c16-prelude", 1200*time.Second, func() {
+				if plan.Dedicated {
+					ca, err := dbA.Conn(context.Background())
+					if err != nil {
+						perr = err
+						return
+					}
+					rnA.db = ca
+				}
+				perr = tm.WithGlobalTx(context.Background(), &tm.GtxConfig{Name: "c16-prelude", Timeout: 60 * time.Second}, func(ctx context.Context) error {
+					preA = rnA.run(ctx, plan.Prelude)
+					return nil
+				})
+			})
+			if !okp {
+				sim.Violate("C16", "same-result", "prelude-stuck", "the operations inside the global transaction before the program did not finish")
+			}
+			settleP2()
+			w.Sim.Probe("c16-program-after-global-transaction-on-same-handle")
+		}
 		jA0, jB0 := w.Srv.JournalLen(), srvB.JournalLen()
 		tc0 := len(w.TC.Log)
 		// reference run (inline: the bare server has no hook)
-		resB := c16Run(context.Background(), dbB, plan.Ops)
+		resB := rnB.run(context.Background(), plan.Ops)
 		// proxied run
 		var resA []c16Res
 		var gerr error
 		done := runOnActor(sim, "c16-program", 1200*time.Second, func() {
 			if plan.Global {
 				gerr = tm.WithGlobalTx(context.Background(), &tm.GtxConfig{Name: "c16", Timeout: 60 * time.Second}, func(ctx context.Context) error {
-					resA = c16Run(ctx, dbA, plan.Ops)
+					resA = rnA.run(ctx, plan.Ops)
 					return nil
 				})
 			} else {
-				resA = c16Run(context.Background(), dbA, plan.Ops)
+				resA = rnA.run(context.Background(), plan.Ops)
 			}
 		})
 		// let phase two of the commit finish
@@ -509,7 +638,33 @@ func runC16(t *testing.T, seed uint64, planJSON []byte, tier string) (res *Resul
 		} else {
 			mode += "-local"
 		}
-		if !done {
+		preMismatch := false
+		if len(plan.Prelude) > 0 || plan.Dedicated {
+			mode += "-after-global"
+			if plan.Dedicated {
+				mode += "-conn"
+			}
+			if perr != nil {
+				sim.Note("prelude: global transaction result: %v", perr)
+			}
+			for i := range plan.Prelude {
+				if i >= len(preA) || i >= len(preB) {
+					break
+				}
+				if a, b := preA[i], preB[i]; a.String() != b.String() {
+					kind := "result"
+					if a.Err != "" && b.Err == "" {
+						kind = "error-only-through-proxy"
+					}
+					sim.Violate("C16", "same-result", fmt.Sprintf("%s-at-global-%s-%s%s", kind, plan.Prelude[i].Op, plan.Prelude[i].Kind, c16Feature(plan, plan.Prelude[i])), "prelude operation %d (%s %q %v) inside the global transaction returned through the proxy: %s; through the bare driver: %s", i, plan.Prelude[i].Op, plan.Prelude[i].SQL, plan.Prelude[i].Args, a, b)
+					preMismatch = true
+					break
+				}
+			}
+		}
+		if preMismatch {
+			// one root cause, one report: the two databases differ from here on
+		} else if !done {
 			sim.Violate("C16", "same-result", "program-stuck-"+mode, "the program did not finish through the proxy within 1200 simulated seconds (it finished on the bare driver)")
 		} else {
 			if gerr != nil {
